@@ -1,7 +1,317 @@
-//! wire interfaces of the "vm" area (see docs/AGENT_GUIDE.md for the id range)
+//! wire interfaces of the "vm" area (ids 70-99)
 #![allow(unused_imports, dead_code)]
 use crate::text::*;
+use marwood::cell::Cell;
+use marwood::error::Error;
+use marwood::vm::{SystemInterface, Vm};
+use std::cell::RefCell;
+use std::rc::Rc;
 
-pub fn run(_c: &[String]) -> String {
-    "BADCASE".into()
+#[derive(Debug)]
+pub struct LogInterface {
+    pub log: Rc<RefCell<Vec<String>>>,
+}
+impl SystemInterface for LogInterface {
+    fn display(&self, cell: &Cell) {
+        self.log.borrow_mut().push(format!("D:{}", esc(&format!("{}", cell))));
+    }
+    fn write(&self, cell: &Cell) {
+        self.log.borrow_mut().push(format!("W:{}", esc(&format!("{:#}", cell))));
+    }
+    fn terminal_dimensions(&self) -> (usize, usize) {
+        (0, 0)
+    }
+    fn time_utc(&self) -> u64 {
+        0
+    }
+}
+
+pub fn new_vm() -> (Vm, Rc<RefCell<Vec<String>>>) {
+    let log = Rc::new(RefCell::new(vec![]));
+    let mut vm = Vm::new();
+    vm.set_system_interface(Box::new(LogInterface { log: log.clone() }));
+    (vm, log)
+}
+
+pub fn show_error(e: &Error) -> String {
+    // every returned error must be renderable (C06): force the Display
+    let _ = format!("{}", e);
+    match e {
+        Error::ErrorSignal(cells) => format!(
+            "ERR user {}",
+            esc(&cells.iter().map(|c| format!("{:#}", c)).collect::<Vec<_>>().join(" "))
+        ),
+        Error::ParseError(marwood::parse::Error::Incomplete)
+        | Error::ParseError(marwood::parse::Error::LexError(marwood::lex::Error::Incomplete))
+        | Error::LexError(marwood::lex::Error::Incomplete) => "ERR incomplete".into(),
+        _ => "ERR".into(),
+    }
+}
+
+/// evaluate a text datum by datum; one outcome per datum; stops at a read error
+pub fn eval_text_all(vm: &mut Vm, text: &str, out: &mut String) {
+    let mut text: &str = text;
+    loop {
+        // separate reading from evaluating so that an evaluation error does not stop the loop
+        let (cell, rest) = match marwood::parse::parse_text(text) {
+            Ok(x) => x,
+            Err(e) => {
+                out.push(' ');
+                out.push_str(&show_error(&Error::from(e)));
+                return;
+            }
+        };
+        match vm.eval(&cell) {
+            Ok(c) => {
+                out.push_str(" OK ");
+                out.push_str(&esc(&format!("{:#}", c)));
+            }
+            Err(e) => {
+                out.push(' ');
+                out.push_str(&show_error(&e));
+            }
+        }
+        match rest {
+            Some(r) => text = r,
+            None => return,
+        }
+    }
+}
+
+fn take_texts(c: &[String]) -> Option<Vec<String>> {
+    let n: usize = c.first()?.parse().ok()?;
+    let mut i = 1;
+    let mut out = vec![];
+    for _ in 0..n {
+        let len: usize = c.get(i)?.parse().ok()?;
+        i += 1;
+        if i + len > c.len() {
+            return None;
+        }
+        out.push(cps(&c[i..i + len]));
+        i += len;
+    }
+    if i != c.len() {
+        return None;
+    }
+    Some(out)
+}
+
+pub fn session(forms: &[String]) -> String {
+    let (mut vm, log) = new_vm();
+    let mut out = String::from("SESSION");
+    for f in forms {
+        out.push_str(" |");
+        eval_text_all(&mut vm, f, &mut out);
+    }
+    out.push_str(" LOG");
+    for l in log.borrow().iter() {
+        out.push(' ');
+        out.push_str(l);
+    }
+    out
+}
+
+fn lcg(x: u64) -> u64 {
+    x.wrapping_mul(6364136223846793005).wrapping_add(1442695040888963407)
+}
+
+/// prepare_eval + run_count(budget) until done; m == 0: constant budget x
+fn eval_sliced(vm: &mut Vm, cell: &Cell, m: u64, x: &mut u64) -> Result<Cell, Error> {
+    vm.prepare_eval(cell)?;
+    let mut slices: u64 = 0;
+    loop {
+        let b = if m == 0 {
+            *x
+        } else {
+            *x = lcg(*x);
+            1 + (*x >> 33) % m
+        };
+        match vm.run_count(b as usize)? {
+            Some(c) => return Ok(c),
+            None => {
+                slices += 1;
+                if slices > 600000 {
+                    return Err(Error::InvalidSyntax("TOO MANY SLICES".into()));
+                }
+            }
+        }
+    }
+}
+
+pub fn sliced_session(forms: &[String], m: u64, seed: u64) -> String {
+    let (mut vm, log) = new_vm();
+    let mut x = seed;
+    let mut out = String::from("SESSION");
+    for f in forms {
+        out.push_str(" |");
+        let mut text: &str = f;
+        loop {
+            let (cell, rest) = match marwood::parse::parse_text(text) {
+                Ok(v) => v,
+                Err(e) => {
+                    out.push(' ');
+                    out.push_str(&show_error(&Error::from(e)));
+                    break;
+                }
+            };
+            match eval_sliced(&mut vm, &cell, m, &mut x) {
+                Ok(c) => {
+                    out.push_str(" OK ");
+                    out.push_str(&esc(&format!("{:#}", c)));
+                }
+                Err(e) => {
+                    out.push(' ');
+                    out.push_str(&show_error(&e));
+                }
+            }
+            match rest {
+                Some(r) => text = r,
+                None => break,
+            }
+        }
+    }
+    out.push_str(" LOG");
+    for l in log.borrow().iter() {
+        out.push(' ');
+        out.push_str(l);
+    }
+    out
+}
+
+#[cfg(marwood_verif)]
+fn state_of(vm: &Vm) -> String {
+    let frames = match vm.last_stacktrace() {
+        Some(t) => format!("{}", t.frames.len()),
+        None => "-".into(),
+    };
+    format!(" [sp={} bp={} cap={} frames={}]", vm.verif_sp(), vm.verif_bp(), vm.verif_stack_capacity(), frames)
+}
+#[cfg(not(marwood_verif))]
+fn state_of(_vm: &Vm) -> String {
+    " [nohooks]".into()
+}
+
+pub fn state_session(forms: &[String]) -> String {
+    let (mut vm, _log) = new_vm();
+    let mut out = String::from("STATE");
+    for f in forms {
+        out.push_str(" |");
+        let mut text: &str = f;
+        loop {
+            let (cell, rest) = match marwood::parse::parse_text(text) {
+                Ok(v) => v,
+                Err(e) => {
+                    out.push(' ');
+                    out.push_str(&show_error(&Error::from(e)));
+                    break;
+                }
+            };
+            match vm.eval(&cell) {
+                Ok(c) => {
+                    out.push_str(" OK ");
+                    out.push_str(&esc(&format!("{:#}", c)));
+                }
+                Err(e) => {
+                    out.push(' ');
+                    out.push_str(&show_error(&e));
+                }
+            }
+            out.push_str(&state_of(&vm));
+            match rest {
+                Some(r) => text = r,
+                None => break,
+            }
+        }
+    }
+    out
+}
+
+/// evaluate by single-instruction slices, tracking the maximum stack pointer seen at
+/// instruction boundaries
+#[cfg(marwood_verif)]
+fn eval_hw(vm: &mut Vm, cell: &Cell) -> (Result<Cell, Error>, usize) {
+    let mut hw = 0usize;
+    if let Err(e) = vm.prepare_eval(cell) {
+        return (Err(e), 0);
+    }
+    loop {
+        match vm.run_count(1) {
+            Ok(Some(c)) => return (Ok(c), hw),
+            Ok(None) => {
+                let sp = vm.verif_sp();
+                if sp > hw {
+                    hw = sp;
+                }
+            }
+            Err(e) => return (Err(e), hw),
+        }
+    }
+}
+#[cfg(not(marwood_verif))]
+fn eval_hw(vm: &mut Vm, cell: &Cell) -> (Result<Cell, Error>, usize) {
+    (vm.eval(cell), 0)
+}
+
+pub fn hw_session(forms: &[String]) -> String {
+    let (mut vm, _log) = new_vm();
+    let mut out = String::from("HW");
+    for f in forms {
+        out.push_str(" |");
+        let mut text: &str = f;
+        loop {
+            let (cell, rest) = match marwood::parse::parse_text(text) {
+                Ok(v) => v,
+                Err(e) => {
+                    out.push(' ');
+                    out.push_str(&show_error(&Error::from(e)));
+                    break;
+                }
+            };
+            let (r, hw) = eval_hw(&mut vm, &cell);
+            match r {
+                Ok(c) => {
+                    out.push_str(" OK ");
+                    out.push_str(&esc(&format!("{:#}", c)));
+                }
+                Err(e) => {
+                    out.push(' ');
+                    out.push_str(&show_error(&e));
+                }
+            }
+            out.push_str(&format!(" hw={}", hw));
+            match rest {
+                Some(r) => text = r,
+                None => break,
+            }
+        }
+    }
+    out
+}
+
+pub fn run(c: &[String]) -> String {
+    let id: u64 = c[0].parse().unwrap_or(0);
+    match id {
+        70 | 71 => match take_texts(&c[1..]) {
+            Some(forms) => session(&forms),
+            None => "BADCASE".into(),
+        },
+        72 => match take_texts(&c[2..]) {
+            Some(forms) => sliced_session(&forms, 0, c[1].parse().unwrap()),
+            None => "BADCASE".into(),
+        },
+        73 => match take_texts(&c[3..]) {
+            Some(forms) => sliced_session(&forms, std::cmp::max(1, c[2].parse().unwrap()), c[1].parse().unwrap()),
+            None => "BADCASE".into(),
+        },
+        74 => match take_texts(&c[1..]) {
+            Some(forms) => state_session(&forms),
+            None => "BADCASE".into(),
+        },
+        75 => match take_texts(&c[1..]) {
+            Some(forms) => hw_session(&forms),
+            None => "BADCASE".into(),
+        },
+        _ => "BADCASE".into(),
+    }
 }
